@@ -294,8 +294,23 @@ func scenarioSequential(cw *cq.Writer, w *World, rng *rand.Rand, desc map[string
 // scenarioHeldReaders (C04): readers of different ages are held open while batches, merges, persists,
 // removals and finally Close happen; each is re-queried after every step and must answer as at the start.
 func scenarioHeldReaders(cw *cq.Writer, w *World, rng *rand.Rand, desc map[string]interface{}) error {
+	// churn: two or three ids, every batch rewrites all of them, and the loading of freshly written segment
+	// files is held back: merges planned on a root are obsolete by the time they are introduced (skipped
+	// introductions), persisted segments are swapped in long after their documents were superseded
+	churn := w.O.DirKind == "sim" && rng.Intn(3) == 0
+	var gate *holdGate
+	if churn {
+		w.O.Universe = 3 + rng.Intn(3)
+		w.O.Merges = "small"
+		w.O.OpDelayUs = 0
+		w.O.HoldMergeIntro = true // merges wait at their introduction while batches supersede what they merged
+		desc["churn"] = true
+	}
 	if err := w.Open(); err != nil {
 		return err
+	}
+	if gate != nil {
+		defer gate.releaseAll()
 	}
 	type held struct {
 		r     interface{ Close() error }
@@ -323,10 +338,51 @@ func scenarioHeldReaders(cw *cq.Writer, w *World, rng *rand.Rand, desc map[strin
 		}
 	}
 	n := 6 + rng.Intn(14)
+	heldSeen := 0
+	if churn {
+		n = (w.O.Universe + 1) * (2 + rng.Intn(2))
+	}
 	for i := 0; i < n; i++ {
 		b := w.GenBatch()
+		if churn {
+			// cycles of: one batch per id (several small segments, a merge gets planned and parks at its
+			// introduction), then one batch rewriting every id (everything the merge merged is obsolete)
+			b.Ops = nil
+			phase := i % (w.O.Universe + 1)
+			fresh := func(id int) DocOp {
+				w.mu.Lock()
+				v := w.nextV
+				w.nextV++
+				w.mu.Unlock()
+				return DocOp{Kind: "upd", ID: id, V: v}
+			}
+			if phase < w.O.Universe {
+				b.Ops = append(b.Ops, fresh(phase))
+			} else {
+				// give the merger time to plan, write and park
+				deadline := time.Now().Add(400 * time.Millisecond)
+				for time.Now().Before(deadline) {
+					w.mu.Lock()
+					held := w.MergesHeld
+					w.mu.Unlock()
+					if held > heldSeen {
+						heldSeen = held
+						break
+					}
+					time.Sleep(2 * time.Millisecond)
+				}
+				for id := 0; id < w.O.Universe; id++ {
+					b.Ops = append(b.Ops, fresh(id))
+				}
+			}
+		}
 		if err := w.Do(b, false); err != nil {
 			return err
+		}
+		if churn && i%(w.O.Universe+1) == w.O.Universe {
+			w.ReleaseMerge()
+			w.ReleaseMerge()
+			time.Sleep(time.Duration(rng.Intn(1500)) * time.Microsecond)
 		}
 		if len(hs) < 4 && rng.Intn(2) == 0 {
 			r, err := w.W.Reader()
@@ -354,8 +410,19 @@ func scenarioHeldReaders(cw *cq.Writer, w *World, rng *rand.Rand, desc map[strin
 			hs = append(hs[:k], hs[k+1:]...)
 		}
 	}
+	if churn {
+		for k := 0; k < 64; k++ {
+			w.ReleaseMerge()
+		}
+		w.O.HoldMergeIntro = false
+	}
 	waitQuiet(w.Rec, 5*time.Millisecond, 500*time.Millisecond)
 	recheck("quiescence")
+	if churn {
+		for k := 0; k < 64; k++ {
+			w.ReleaseMerge()
+		}
+	}
 	if err := w.Close(); err != nil {
 		return err
 	}
